@@ -44,6 +44,7 @@ GATES = {
     "negated-key-still-valid": ["cand:odd-y-key-object(valid)"],
     "aux-none": ["sign:aux-none"],
     "cache-invariant": ["tag-cache-checked"],
+    "object-reuse-histories": ["reuse:key-object-signs-repeatedly", "reuse:signature-object-verified-under-other-key"],
 }
 
 
@@ -253,12 +254,49 @@ def one_sign(ctx, rng, d, msg, aux, nflips, all_flips=False):
     ctx.sample({"secret": d, "msg": msg, "aux": aux, "sig": exp})
 
 
+def object_reuse_history(ctx, rng):
+    """Histories on ONE key object / ONE signature object: the statement quantifies over inputs, so the result
+    must not depend on what the same objects were used for before (memo fields must not leak between calls).
+    The contracts on sign_schnorr / verify_schnorr decide every step."""
+    from buidl.pecc import PrivateKey, S256Point, SchnorrSignature
+
+    d = rand_secret(rng)
+    key = PrivateKey(d)
+    msgs = [rng.randbytes(32) for _ in range(2)]
+    auxes = [b"\x00" * 32, rng.randbytes(32), None, b"\xff" * 32, rng.randbytes(32)]
+    steps = []
+    sig_obj = None
+    for k in range(4):
+        msg, aux = msgs[k % 2], auxes[(k * 2 + rng.randrange(2)) % len(auxes)]
+        o = outcome(key.sign_schnorr, msg, aux)  # decided by the contract (same object, changing aux/msg)
+        steps.append(("sign", msg, aux))
+        if o[0] == "ok":
+            sig_obj = (o[1], msg)
+    ctx.count("reuse:key-object-signs-repeatedly")
+    if sig_obj is None:
+        return
+    sig, msg = sig_obj
+    pk = S256Point.parse_xonly(ec.xonly_pub(d))
+    other = S256Point.parse_xonly(ec.xonly_pub(rand_secret(rng)))
+    parsed = SchnorrSignature.parse(sig.serialize())
+    # the same signature object is verified under the right key, then under another key / message
+    for obj in (sig, parsed):
+        outcome(pk.verify_schnorr, msg, obj)
+        outcome(other.verify_schnorr, msg, obj)
+        outcome(pk.verify_schnorr, msgs[0] if msg != msgs[0] else msgs[1], obj)
+        outcome(pk.verify_schnorr, msg, obj)
+    ctx.count("reuse:signature-object-verified-under-other-key")
+    ctx.case(("reuse", d, [s[1:] for s in steps]))
+
+
 def run_shard(desc, ctx):
     ec.selfcheck()
     install()
     idx = desc["idx"]
     rng = ctx.rng()
     bs = boundary_secrets()
+    for _ in range(1 if ctx.tier == "quick" else 8):
+        object_reuse_history(ctx, rng)
     for rnd in range(desc["rounds"]):
         for cls_i in range(4):
             if ctx.out_of_time():
